@@ -151,12 +151,20 @@ func TestC16(t *testing.T) {
 			boundary = true
 		}
 		prog := &lang.Program{Stmts: body}
+		if !isRange && v.K != lang.KString && rapid.Bool().Draw(rt, "decoy") {
+			// a second literal earlier in the script that prints like the
+			// container but whose elements have other types
+			if d := printAlike(v); gen.LiteralOK(d) {
+				prelude = "D = " + lang.ExprText(lang.ValueExpr(d)) + ";\n" + prelude
+				col.Class("with-print-alike-decoy")
+			}
+		}
 		c.Script = prelude + lang.ProgramText(prog)
 		// the prelude assignments are part of the script: tell the model
-		if strings.HasPrefix(prelude, "K = ") {
+		if strings.Contains(prelude, "K = ") {
 			m.Globals["K"] = v
 		}
-		if strings.HasPrefix(prelude, "R = ") {
+		if strings.Contains(prelude, "R = ") {
 			if rv, err := m.Eval(lang.Binary{Op: "..", L: ceRangeLo(prelude), R: ceRangeHi(prelude)}); err == nil {
 				m.Globals["R"] = rv
 			} else {
@@ -182,6 +190,34 @@ func TestC16(t *testing.T) {
 		cc := c
 		col.Case(fmt.Sprint(c.Script, c.Vars, c.Obj, c.NoOpt), !c.Exp.Unspec && ((clen >= 2 && boundary) || multibyte), func() interface{} { return sampleOf(cc) })
 	})
+}
+
+// printAlike maps integers to floats, integral floats to integers and
+// numeric strings to numbers, recursively: the result prints as v does.
+func printAlike(v lang.Value) lang.Value {
+	switch v.K {
+	case lang.KInt:
+		if v.I > -(1<<40) && v.I < 1<<40 {
+			return lang.Float(float64(v.I))
+		}
+	case lang.KFloat:
+		if v.F == float64(int64(v.F)) && v.F > -1e12 && v.F < 1e12 {
+			return lang.Int(int64(v.F))
+		}
+	case lang.KArray:
+		out := lang.Array()
+		for _, e := range v.A {
+			out.A = append(out.A, printAlike(e))
+		}
+		return out
+	case lang.KHash:
+		out := lang.Hash()
+		for _, p := range v.H {
+			out.H = append(out.H, lang.Pair{K: p.K, V: printAlike(p.V)})
+		}
+		return out
+	}
+	return v
 }
 
 // helpers to re-read the range bounds from "R = lo .. hi;"
@@ -276,6 +312,37 @@ func checkTies(c *Case, h lang.Value) error {
 		if seen[e] != 1 {
 			return fmt.Errorf("entry %s visited %d times: %v", e, seen[e], res.Trace[:n])
 		}
+	}
+	// keys(H) lists every key exactly once, in non-decreasing printed order
+	// (the relative order of keys that print alike is not this property's business)
+	var pairs []string
+	for _, p := range h.H {
+		pairs = append(pairs, p.K.Inspect()+"\x00"+p.K.Type())
+	}
+	sort.Strings(pairs)
+	kt := res.Trace[2*n]
+	body := strings.TrimSuffix(strings.TrimPrefix(kt, "trace(ARRAY:["), ")")
+	halves := strings.SplitN(body, "]~[", 2)
+	if len(halves) != 2 {
+		return fmt.Errorf("keys(H) is not an array: %s", kt)
+	}
+	var gotPairs []string
+	if n > 0 {
+		prints := strings.Split(halves[0], ", ")
+		types := strings.Split(strings.TrimSuffix(halves[1], "]"), ",")
+		if len(prints) != n || len(types) != n {
+			return fmt.Errorf("keys(H) has %d entries for %d keys: %s", len(prints), n, kt)
+		}
+		for i := range prints {
+			if i > 0 && prints[i] < prints[i-1] {
+				return fmt.Errorf("keys(H) is not in sorted order: %s", kt)
+			}
+			gotPairs = append(gotPairs, prints[i]+"\x00"+types[i])
+		}
+	}
+	sort.Strings(gotPairs)
+	if strings.Join(gotPairs, "|") != strings.Join(pairs, "|") {
+		return fmt.Errorf("keys(H) does not list every key exactly once: %s", kt)
 	}
 	// single-variable loop visits every value once
 	var vals, wantVals []string
